@@ -1211,3 +1211,39 @@ Lemma update_gate_is_source h lastu :
   ZV.gen.PureCursor.CanPerformUpdate 0 h 0 lastu =
   if wrapU 64 (lastu + UpdateMinNumMomentums) <=? h then 0 else ZV.gen.Pure.Err_constants_ErrUpdateTooRecent.
 Proof. reflexivity. Qed.
+
+(* ------------------------------------------------------------------ what one liquidity Update issues *)
+
+(* one issued pair of Mint blocks: the amounts are the emission of the epoch they are issued FOR (not of the first
+   epoch of the call, not of the epoch before), and therefore within that epoch's network emission *)
+Definition issue_ok (m : Z * (Z * Z)) : Prop :=
+  0 <= fst m < two64 /\ LiquidityRewardForEpoch (fst m) = Ok (snd m) /\
+  exists z q, NetworkZnnRewardPerEpoch (fst m) = Ok z /\ NetworkQsrRewardPerEpoch (fst m) = Ok q /\
+    0 <= fst (snd m) <= z /\ 0 <= snd (snd m) <= q.
+
+Lemma liquidity_issue_spec fuel : forall g dur now last nres es l',
+  cursor_ok g dur last -> now < two62 ->
+  liquidity_loop fuel g dur now last nres = Some (es, l') ->
+  exists ms, liquidity_issue fuel g dur now last nres = Some (Done (ms, l')) /\ map fst ms = es /\ Forall issue_ok ms.
+Proof.
+  induction fuel as [|k IH]; intros g dur now last nres es l' Hok Hn H; [discriminate|].
+  cbn [liquidity_loop] in H. cbn [liquidity_issue].
+  destruct (MaxEpochsPerUpdate <=? nres) eqn:Ecap.
+  - inversion H. subst es l'. exists []. split; [reflexivity|]. split; [reflexivity|constructor].
+  - destruct (update_due g dur now last) eqn:Hdue; cbn [negb] in *.
+    + destruct (cursor_ok_step _ _ _ _ Hok Hn Hdue) as [Hok' Hw]. rewrite Hw in *.
+      destruct (liquidity_loop k g dur now (last + 1) (nres + 2)) as [[es1 l1]|] eqn:E; [|discriminate].
+      inversion H. subst es l'. clear H.
+      destruct (IH _ _ _ _ _ _ _ Hok' Hn E) as [ms [A [B C]]].
+      assert (He : 0 <= last + 1 < two64).
+      { destruct Hok' as [Hg [Hd [Hl Hr]]]. destruct Hok as [_ [_ [Hl0 _]]]. pose proof rtl_ok as HR.
+        assert (X : 0 <= (dur - 1) * (last + 1 + 2)) by (apply Z.mul_nonneg_nonneg; lia).
+        unfold two62, two63, two64 in *. lia. }
+      assert (Hu : u64 (last + 1) = last + 1) by (unfold u64; apply Z.mod_small; exact He).
+      rewrite Hu. destruct (liquidity_share _ He) as [z [q [lz [lq [Hz [Hq [Hl [Hb1 Hb2]]]]]]]].
+      rewrite Hl, A. exists ((last + 1, (lz, lq)) :: ms). split; [reflexivity|].
+      split; [cbn [map fst]; f_equal; exact B|].
+      constructor; [|exact C]. unfold issue_ok; cbn [fst snd].
+      split; [exact He|]. split; [exact Hl|]. exists z, q. repeat split; try assumption; lia.
+    + inversion H. subst es l'. exists []. split; [reflexivity|]. split; [reflexivity|constructor].
+Qed.
